@@ -131,16 +131,19 @@ theorem C02_descendants_done_quiet (P : Program) (F : Flags) (n : Nat) (tr : Lis
 itself but waited for the shared execution of a `run: once` / `when_changed` task, then —
 as soon as it has been woken, in particular when it has returned to its caller — that
 execution has finished: its command loop and all its deferred entries are over, all its
-descendants have returned, and the waiter's result is the execution's result.  (This is
-the repaired `startExecution`; the unrepaired code wakes waiters on cancellation.) -/
+descendants have returned, and the waiter took what that execution ended with (`other.err`),
+its own result being its own wrapping of it — what it would have returned had it run the
+task itself.  (This is the repaired `startExecution`; the unrepaired code wakes waiters on
+cancellation.) -/
 theorem C02_waiter_sync (P : Program) (F : Flags) (n : Nat) (tr : List Label) (c : Config)
     (h : replay P F (init n) tr = some c) (a : Nat) (x : Act) (hx : c.act? a = some x)
     (k : Nat) (hw : x.waitsFor = some k) (hp : x.phase ≠ .wWaiting ∧ x.phase ≠ .wReleased) :
     ∃ e ex, c.execs.lookup k = some e ∧ c.act? e = some ex ∧ execOver ex.phase = true ∧
-      ex.res = x.res ∧ ex.ran = ex.regs.reverse ∧ ∀ b, Descendant c e b → Finished c b := by
+      (ex.out = x.out ∧ x.res = wrapFor x.indirect ex.out) ∧ ex.ran = ex.regs.reverse ∧
+      ∀ b, Descendant c e b → Finished c b := by
   obtain ⟨_, g⟩ := WInv_sound P F n tr c h a x hx k hw
-  obtain ⟨e, ex, h1, h2, h3, h4⟩ := (execResultOf_some c k x.res).mp (g hp.1 hp.2)
-  refine ⟨e, ex, h1, h2, h3, h4, ?_, ?_⟩
+  obtain ⟨e, ex, h1, h2, h3, h4⟩ := (execResultOf_some c k x.out).mp (g hp.1 hp.2)
+  refine ⟨e, ex, h1, h2, h3, ⟨h4, by rw [h4]; exact OutInv_sound P F n tr c h a x hx⟩, ?_, ?_⟩
   · refine Props.C14.C14_all_run P F n tr c h e ex h2 ?_
     revert h3; cases ex.phase <;> simp [execOver, Props.C14.post]
   · intro b hb
